@@ -9,7 +9,7 @@ import (
 var (
 	Rooted            = compiler.VerifRooted
 	ValidTemplatePath = compiler.ValidTemplatePath
-	ParseTemplate     = compiler.VerifParseTemplate
+	ParseTemplateErr  = compiler.VerifParseTemplateErr
 	AsCycleError      = compiler.VerifCycleError
 	AsSyntaxError     = compiler.VerifSyntaxError
 )
